@@ -151,7 +151,8 @@ def run(res, proof):
 
     def run_seq(s, names, opseq):
         nonlocal nseq
-        hl = list(pre) + ['mk.cplx\t0\tX\t-\t%s\t%s' % (' '.join('+' if n == '+' else 'h%d' % hmap[n] for n in names), s)]
+        # one sequence in four runs on a user subclass of ComplexS (own registry, inherited methods)
+        hl = list(pre) + ['mk.cplx\t%d\tX\t-\t%s\t%s' % (rng.choice((0, 0, 0, 1, 2)), ' '.join('+' if n == '+' else 'h%d' % hmap[n] for n in names), s)]
         ho = [iw.do(l) for l in hl]
         if not ho[-1].startswith('ret h2 new'):
             return
